@@ -1,5 +1,6 @@
 import Capella.Driver.Util
 import Capella.Model.Geom
+import Capella.Model.GeomEdge
 /-!
 Line-protocol driver for `Capella.Geom` (property C17).
 
@@ -81,8 +82,91 @@ def snapAnswer (b : Box) (p s : V2) (st : Style) : Json :=
 
 def range (lo hi : Int) : List Int := (List.range (hi - lo + 1).toNat).map (fun (i : Nat) => lo + Int.ofNat i)
 
+/-! ### edge chain (`Model/GeomEdge.lean`) -/
+
+/-- the decision of `snap_oblique` the driver runs the model with -/
+def decMid : V2 → V2 → Bool := angleGe ((cosSqLo + cosSqHi) / 2)
+
+/-- `math.isclose(a, b)` may differ from `a = b` -/
+def isNear (a b : Rat) : Bool := a ≠ b ∧ rabs (a - b) ≤ rabs (max (rabs a) (rabs b)) / 100000000
+
+/-- branch tags, angle tie and `isclose` tie of one `snapEnd` call (re-evaluates the guards of the model) -/
+def endInfo (st : Style) (b : Box) (pts : List V2) : List String × Bool × Bool :=
+  match pts with
+  | e :: nx :: rest =>
+    match st with
+    | .oblique =>
+      match vectorSnap b e nx .oblique with
+      | .error _ => (["obl:first-snap-error"], false, false)
+      | .ok q =>
+        let tie := angleTie (e - nx) (q - nx)
+        let z := (if e - nx = ⟨0, 0⟩ then ["obl:zero-direction"] else []) ++ (if q - nx = ⟨0, 0⟩ then ["obl:snapped-onto-source"] else [])
+        if decMid (e - nx) (q - nx) then
+          ((match rest.head? with | some _ => "obl:resnap:third-point" | none => "obl:resnap:two-points") :: z, tie, false)
+        else ("obl:keep" :: z, tie, false)
+    | .manhattan =>
+      let axis := closestaxis (e - nx)
+      let al := onAxis axis (e - nx)
+      let e1 : V2 := if al then e else e.had (absV axis) + nx.had ⟨b2r (axis.x = 0), b2r (axis.y = 0)⟩
+      let t1 := (if al then "man:aligned" else "man:projected") ++ (if axis.x ≠ 0 then ":h" else ":v")
+      match vectorSnap b e1 nx .manhattan with
+      | .error _ => ([t1, "man:snap-error"], false, false)
+      | .ok q =>
+        if axis.x ≠ 0 then ([t1, if q.y = e1.y then "man:h:direct" else "man:h:bend"], false, isNear q.y e1.y)
+        else ([t1, if q.x = e1.x then "man:v:direct" else "man:v:bend"], false, isNear q.x e1.x)
+    | .tree =>
+      match vectorSnap b e nx .tree with
+      | .error _ => (["tree:snap-error"], false, false)
+      | .ok q => ([if q.x = e.x then "tree:direct" else "tree:bend"], false, isNear q.x e.x)
+  | _ => (["end:too-few-points"], false, false)
+
+def edgeAnswer (i : EdgeIn) : Json :=
+  let sb := boxBounds i.src i.srcLabels
+  let refpos : V2 := sb.toBox.pos + sb.toBox.size.had i.anchor
+  let raw := i.rel.map (fun r => refpos + r)
+  let bend := extractRelBendpoints sb i.anchor i.rel
+  let t0 := if raw = [] then "pts:none-stored" else if bend = [] then "pts:collapsed" else "pts:stored"
+  let t0 := if bend = [] then [t0, "route:" ++ (match i.style with | .oblique => "oblique" | .manhattan => "manhattan" | .tree => "tree")] else [t0]
+  match edgePoints i with
+  | .error e => Json.mkObj [("e", Json.str (errName e)), ("br", toJson (t0 ++ ["pts:route-error"]))]
+  | .ok pts =>
+    let (tt, tie1, near1) := endInfo i.style i.tgt pts.reverse
+    let tt := tt.map ("tgt." ++ ·)
+    match snapEnd decMid i.style i.tgt pts.reverse with
+    | .error e => Json.mkObj [("e", Json.str (errName e)), ("br", toJson (t0 ++ tt))]
+    | .ok r =>
+      let (ts, tie2, near2) := endInfo i.style i.src r.reverse
+      let ts := ts.map ("src." ++ ·)
+      let extra := [("br", toJson (t0 ++ tt ++ ts)), ("tie", Json.bool (tie1 || tie2)), ("near", Json.bool (near1 || near2))]
+      match snapEnd decMid i.style i.src r.reverse with
+      | .error e => Json.mkObj (("e", Json.str (errName e)) :: extra)
+      | .ok out => Json.mkObj (("pts", Json.arr (out.map jv2).toArray) :: extra)
+
+def boxesOf (j : Json) : Except String (List Box) := do
+  (← j.getArr?).toList.mapM (fun l => boxOf l)
+
+def edgeInOf (j : Json) : Except String EdgeIn := do
+  let sp ← (do let p ← get j "sport"; p.getBool?) <|> pure false
+  let tp ← (do let p ← get j "tport"; p.getBool?) <|> pure false
+  pure { src := ← boxOf (← get j "src") sp, srcLabels := ← boxesOf (← get j "slabels"),
+         tgt := ← boxOf (← get j "tgt") tp, tgtLabels := ← boxesOf (← get j "tlabels"),
+         anchor := ← v2Of (← get j "anchor"), rel := ← (← (← get j "rel").getArr?).toList.mapM v2Of,
+         style := ← styleOf (← j.getObjValAs? String "style") }
+
 def handle (op : String) (j : Json) : Except String Json := do
   match op with
+  | "edge" => pure (edgeAnswer (← edgeInOf j))
+  | "snapEnd" =>
+    -- one `snaptarget` call on points given outermost-first
+    let port ← (do let p ← get j "port"; p.getBool?) <|> pure false
+    let b ← boxOf (← get j "box") port
+    let st ← styleOf (← j.getObjValAs? String "style")
+    let pts ← (← (← get j "pts").getArr?).toList.mapM v2Of
+    let (tags, tie, near) := endInfo st b pts
+    let extra := [("br", toJson tags), ("tie", Json.bool tie), ("near", Json.bool near)]
+    match snapEnd decMid st b pts with
+    | .error e => pure (Json.mkObj (("e", Json.str (errName e)) :: extra))
+    | .ok out => pure (Json.mkObj (("pts", Json.arr (out.map jv2).toArray) :: extra))
   | "snap" =>
     let port ← (do let p ← get j "port"; p.getBool?) <|> pure false
     let b ← boxOf (← get j "box") port
